@@ -27,7 +27,7 @@ import (
 func init() {
 	reg.Register(&reg.Spec{ID: "C32",
 		Imports: "From verif Require Import lib.Base model.C32.",
-		Judge:   "C32.judge", Shard: 25, Run: run})
+		Judge:   "C32.judge", Shard: 100, Run: run})
 }
 
 // watchdog is deliberately generous: the machine may be heavily loaded, and a
